@@ -158,6 +158,8 @@ pub const VALUE_EDGES: &[&str] = &[
     "2020-06-12 17:53:00", "202\u{e9}06-12T17:53:00Z", "2020-06-12T1\u{e9}53:00Z", "2020-06-1\u{e9}T17:53:0Z", "\u{20ac}020-06-12T17:53:0Z", "2020-06-12T17:53:\u{e9}Z", "2020-13-45T99:99:99Z", "9999999999-01-01T00:00:00Z", "-2020-06-12T17:53:00Z", "0000-00-00T00:00:00Z", "123:456", "123:18446744073709551616", "340282366920938463463374607431768211456",
     // decimals with 1-2 and with very many fraction digits, leading zeros, exponents
     "2.5", "0.25", "1.0000000000", "3.00000000000000000025", "7.4294967295", "7.4294967296", "0.30000000000000004", "1.999999999999999999999", "0.0000000000000000000000001", "00000000000000000001.5", "1.5e0", "1.5E3", "1_000",
+    // ranges whose end precedes their start, values that repeat the sticker name the converters ask for ("n") without `=`
+    "25.500-10.000", "2-1", "1-0.5", "0.001-0", "18446744073709551615-1", "n", "nn", "n\u{e9}", "n=", "n=v", "n =v", "N=v",
     "1.0000000000-2.5", "0.5-2.25", "01", "001", "+0", "00", "1:2:3", "a:b:7", "31:", "31:240", "240",
     "179769313486231570000000000000000000000000000000000000000000000000000000000000000000000000000000000000000000000000000000000000000000000000000000000000000000000000000000000000000000000000000000000000000000000000000000000000000000000000000000000000000000000000000000000000000000000000000000000000000000000000000",
 ];
